@@ -322,6 +322,12 @@ impl Check for C14 {
                         if !new_optimistic.is_empty() {
                             vd.probe("optimistic_chosen");
                         }
+                        if snap.peers.iter().filter(|p| p.interested).count() >= 11 {
+                            vd.probe("rotations_with_11_or_more_interested");
+                        }
+                        if snap.peers.iter().any(|p| p.am_choked && p.interested) {
+                            vd.probe("rotations_leaving_an_interested_peer_choked");
+                        }
                         let rate = |a: &str| rates.iter().find(|(x, _)| x == a).map(|(_, r)| *r);
                         let holders: Vec<&world::PeerSnap> = snap.peers.iter().filter(|p| !p.am_choked && !p.optimistic).collect();
                         for h in &holders {
